@@ -89,8 +89,8 @@ func (c01) Gen(seed uint64, run int, tier string) *core.Case {
 			op.DataSeed = r.Uint64()
 			if strings.HasPrefix(op.Mode, "chunked") || op.Mode == s3c.ModeUnsignedTrailer {
 				op.Chunks = genChunks(r, op.Size)
-				if op.Size > 100000 && len(op.Chunks) == 1 && op.Chunks[0] < 64 {
-					op.Chunks = []int{8192}
+				if op.Size > 4096 && len(op.Chunks) == 1 && op.Chunks[0] < 64 {
+					op.Chunks = []int{1, 1, 7, 64, 8192}
 				}
 				op.Algo = s3c.TrailerAlgos[r.IntN(len(s3c.TrailerAlgos))]
 			} else if r.IntN(4) == 0 && op.Mode != s3c.ModePresign {
@@ -276,7 +276,12 @@ func (c01) Exec(c *core.Case) (out *core.Outcome) {
 		if w != nil {
 			wk = w.kind
 		}
-		o.Violate("readback-mismatch", fmt.Sprintf("C01/%s/after=%s/%s", what, wk, detailClass(detail)),
+		sig := fmt.Sprintf("C01/%s/after=%s/%s", what, wk, detailClass(detail))
+		if strings.HasSuffix(p.Keys[op.Key], "/") && isMetaDetail(detailClass(detail)) {
+			// one defect family: explicit directory objects do not keep supplied metadata
+			sig = "C01/dirobject/metadata-not-kept"
+		}
+		o.Violate("readback-mismatch", sig,
 			"op %d %s key %q (written by %s): %s", i, op.Kind, p.Keys[op.Key], wk, detail)
 	}
 	for i, op := range p.Ops {
@@ -332,9 +337,6 @@ func (c01) Exec(c *core.Case) (out *core.Outcome) {
 			}
 			model[op.Key] = st
 			wi[op.Key] = &winfo{kind: "put/" + op.Mode, gw: cl.GW}
-			if et := res.Resp.Get("ETag"); et != st.ETag {
-				viol(op, i, "put-response-etag", fmt.Sprintf("upload response ETag %s, want %s", et, st.ETag))
-			}
 		case "mpu":
 			h := append(append([]KV{}, op.Hdrs...), op.Meta...)
 			if len(op.Tags) > 0 {
@@ -381,10 +383,6 @@ func (c01) Exec(c *core.Case) (out *core.Outcome) {
 			st := &ObjState{Data: all, ETag: s3c.MultipartETag(parts), Hdrs: hdrMap(op.Hdrs), Meta: metaMap(op.Meta), Tags: op.Tags, MP: true}
 			model[op.Key] = st
 			wi[op.Key] = &winfo{kind: "mpu", gw: cl.GW}
-			var cres s3c.CompleteMPUResult
-			if xml.Unmarshal(cr.Resp.Body, &cres) == nil && cres.ETag != st.ETag {
-				viol(op, i, "mpu-response-etag", fmt.Sprintf("completion response ETag %s, want %s", cres.ETag, st.ETag))
-			}
 		case "copy":
 			src := model[op.Src]
 			if src == nil || op.Src >= len(p.Keys) {
@@ -447,6 +445,11 @@ func (c01) Exec(c *core.Case) (out *core.Outcome) {
 			}
 			res := cl.Do(s3c.GetObjectTagging(bkt, key))
 			var tg s3c.Tagging
+			if len(want.Tags) == 0 && res.Resp.Status == 404 && res.Resp.ErrCode() == "NoSuchTagSet" {
+				// "no tags" may be reported as NoSuchTagSet; the statement does not say how
+				o.AddClass("%s|tags=0|%s|gettags", wi[op.Key].kind, cfgc)
+				continue
+			}
 			if !res.Resp.OK() || xml.Unmarshal(res.Resp.Body, &tg) != nil {
 				viol(op, i, "gettags", fmt.Sprintf("GetObjectTagging -> %d %s", res.Resp.Status, res.Resp.ErrCode()))
 				continue
@@ -499,7 +502,7 @@ func (c01) Exec(c *core.Case) (out *core.Outcome) {
 					viol(c01Op{Kind: "list", Key: k}, i, "list", fmt.Sprintf("key %q missing from listing", p.Keys[k]))
 					continue
 				}
-				if en.Size != int64(len(want.Data)) || (en.ETag != want.ETag && en.ETag != want.AltETag) {
+				if en.Size != int64(len(want.Data)) || (!etagEq(en.ETag, want.ETag) && !etagEq(en.ETag, want.AltETag)) {
 					viol(c01Op{Kind: "list", Key: k}, i, "list", fmt.Sprintf("listing says size=%d etag=%s, want size=%d etag=%s", en.Size, en.ETag, len(want.Data), want.ETag))
 				}
 			}
@@ -533,4 +536,12 @@ func detailClass(d string) string {
 		}
 	}
 	return "other"
+}
+
+func isMetaDetail(c string) bool {
+	switch c {
+	case "user-metadata", "tags", "Content-Type", "Content-Encoding", "Content-Disposition", "Content-Language", "Cache-Control", "Expires", "GetObject":
+		return true
+	}
+	return false
 }
